@@ -1,6 +1,369 @@
-"""Thorough tier: whole-package sweep + self-validation of the rules by derived mutants."""
+"""Thorough tier: (i) the property's rules on /repo (same as quick), (ii) self-validation of the
+rules against the *current* tree: canonical breaking edits and neutral edits are derived from the
+source with `ast`, written to a scratch copy under a fresh temporary directory (removed
+afterwards), re-parsed (must compile) and the property's check must fire / stay silent.
+The kill matrix is evidence; a surviving mutant is reported there, it is not a violation of
+the property on /repo."""
+
+from __future__ import annotations
+
+import ast
+import copy
+import json
+import os
+import random
+import shutil
+import subprocess
+import sys
+import tempfile
+import time
+from concurrent.futures import ThreadPoolExecutor
+
+from . import REPO, VERIF
 from .engine import main_check
+
+PY = sys.executable
+
+
+# ------------------------------------------------------------------------------------------
+# mutation operators: each yields (label, module file, new source, expected properties)
+# ------------------------------------------------------------------------------------------
+def _parse(repo, mod):
+    with open(os.path.join(repo, "valida", mod)) as fh:
+        src = fh.read()
+    return src, ast.parse(src)
+
+
+def _func(tree, qual):
+    parts = qual.split(".")
+    node = tree
+    for p in parts:
+        found = None
+        for n in getattr(node, "body", []):
+            if isinstance(n, (ast.FunctionDef, ast.ClassDef)) and n.name == p:
+                found = n
+        if found is None:
+            return None
+        node = found
+    return node
+
+
+def _emit(tree):
+    ast.fix_missing_locations(tree)
+    return ast.unparse(tree) + "\n"
+
+
+def gen_handler_mutants(repo):
+    """Narrow / remove exception handlers at the containment sites."""
+    sites = [("conditions.py", "Condition._filter", {"C01", "C07"}), ("datapath.py", "DataPath.get_data", {"C03", "C07"}), ("rules.py", "Rule.test", {"C07", "C15"})]
+    for mod, qual, props in sites:
+        src, tree = _parse(repo, mod)
+        f = _func(tree, qual)
+        if f is None:
+            continue
+        tries = [n for n in ast.walk(f) if isinstance(n, ast.Try)]
+        for ti, t in enumerate(tries):
+            for hi, h in enumerate(t.handlers):
+                if isinstance(h.type, ast.Tuple):
+                    for ei, e in enumerate(h.type.elts):
+                        t2 = copy.deepcopy(tree)
+                        f2 = _func(t2, qual)
+                        tr = [n for n in ast.walk(f2) if isinstance(n, ast.Try)][ti]
+                        hh = tr.handlers[hi]
+                        hh.type = ast.Tuple(elts=[x for j, x in enumerate(hh.type.elts) if j != ei], ctx=ast.Load())
+                        yield (f"narrow-handler:{qual}:try{ti}:drop-{ast.unparse(e)}", mod, _emit(t2), props, "break")
+                elif isinstance(h.type, ast.Name):
+                    t2 = copy.deepcopy(tree)
+                    f2 = _func(t2, qual)
+                    tr = [n for n in ast.walk(f2) if isinstance(n, ast.Try)][ti]
+                    tr.handlers[hi].type = ast.Name(id="KeyError" if h.type.id != "KeyError" else "OSError", ctx=ast.Load())
+                    yield (f"retype-handler:{qual}:try{ti}:{h.type.id}", mod, _emit(t2), props, "break")
+
+
+def gen_copy_mutants(repo):
+    for mod, props in (("rules.py", {"C08", "C15"}), ("schema.py", {"C08", "C15"}), ("conditions.py", {"C16"}), ("datapath.py", {"C16"})):
+        src, tree = _parse(repo, mod)
+        calls = [n for n in ast.walk(tree) if isinstance(n, ast.Call) and ast.unparse(n.func) == "copy.deepcopy"]
+        for ci, c in enumerate(calls):
+            txt = ast.unparse(c)
+            if mod in ("conditions.py",) and "spec_val" not in txt:
+                continue
+            if mod == "datapath.py" and "parts" not in txt:
+                continue
+            if mod == "rules.py" and not any(k in txt for k in ("get_original", "spec.get")):
+                continue
+            t2 = copy.deepcopy(tree)
+            c2 = [n for n in ast.walk(t2) if isinstance(n, ast.Call) and ast.unparse(n.func) == "copy.deepcopy"][ci]
+            c2.func = ast.Attribute(value=ast.Name(id="copy", ctx=ast.Load()), attr="copy", ctx=ast.Load())
+            p = props if "spec" not in txt else {"C16"}
+            yield (f"deepcopy->copy:{mod}:{txt[:40]}", mod, _emit(t2), p, "break")
+
+
+def gen_escape_mutants(repo):
+    src, tree = _parse(repo, "schema.py")
+    calls = [n for n in ast.walk(tree) if isinstance(n, ast.Call) and ast.unparse(n.func) == "html.escape"]
+    for ci, c in enumerate(calls):
+        t2 = copy.deepcopy(tree)
+
+        class Rm(ast.NodeTransformer):
+            k = -1
+
+            def visit_Call(self, node):
+                self.generic_visit(node)
+                if ast.unparse(node.func) == "html.escape":
+                    Rm.k += 1
+                    if Rm.k == ci:
+                        return node.args[0]
+                return node
+        Rm.k = -1
+        t2 = Rm().visit(t2)
+        yield (f"drop-escape:{ci}:{ast.unparse(c)[:40]}", "schema.py", _emit(t2), {"C20"}, "break")
+
+
+def gen_tag_mutants(repo):
+    src, tree = _parse(repo, "schema.py")
+    f = _func(tree, "write_tree_html")
+    stmts = [n for n in ast.walk(f) if isinstance(n, ast.AugAssign) and isinstance(n.value, ast.Constant) and isinstance(n.value.value, str) and n.value.value.startswith("</")]
+    for si, s in enumerate(stmts):
+        t2 = copy.deepcopy(tree)
+        f2 = _func(t2, "write_tree_html")
+        s2 = [n for n in ast.walk(f2) if isinstance(n, ast.AugAssign) and isinstance(n.value, ast.Constant) and isinstance(n.value.value, str) and n.value.value.startswith("</")][si]
+        s2.value = ast.Constant(value="")
+        yield (f"drop-closing-tag:{s.value.value}:{si}", "schema.py", _emit(t2), {"C20"}, "break")
+
+
+def gen_eq_mutants(repo):
+    for mod in ("conditions.py", "datapath.py", "rules.py", "schema.py"):
+        src, tree = _parse(repo, mod)
+        eqs = [n for n in ast.walk(tree) if isinstance(n, ast.FunctionDef) and n.name == "__eq__"]
+        for qi, q in enumerate(eqs):
+            ands = [n for n in ast.walk(q) if isinstance(n, ast.BoolOp) and isinstance(n.op, ast.And)]
+            for ai, a in enumerate(ands):
+                for vi, v in enumerate(a.values):
+                    if "type(" in ast.unparse(v) or "super()" in ast.unparse(v):
+                        continue
+                    if len(a.values) < 2:
+                        continue
+                    t2 = copy.deepcopy(tree)
+                    q2 = [n for n in ast.walk(t2) if isinstance(n, ast.FunctionDef) and n.name == "__eq__"][qi]
+                    a2 = [n for n in ast.walk(q2) if isinstance(n, ast.BoolOp) and isinstance(n.op, ast.And)][ai]
+                    a2.values = [x for j, x in enumerate(a2.values) if j != vi]
+                    if len(a2.values) == 1:
+                        continue
+                    yield (f"eq-drop-conjunct:{mod}:eq{qi}:{ast.unparse(v)[:40]}", mod, _emit(t2), {"C14"}, "break")
+
+
+def gen_callable_mutants(repo):
+    src, tree = _parse(repo, "callables.py")
+    swap = {ast.Lt: ast.LtE, ast.LtE: ast.Lt, ast.Gt: ast.GtE, ast.GtE: ast.Gt, ast.Eq: ast.NotEq, ast.NotEq: ast.Eq, ast.In: ast.NotIn, ast.NotIn: ast.In}
+    cmps = [n for n in ast.walk(tree) if isinstance(n, ast.Compare) and type(n.ops[0]) in swap]
+    for ci, c in enumerate(cmps):
+        t2 = copy.deepcopy(tree)
+        c2 = [n for n in ast.walk(t2) if isinstance(n, ast.Compare) and type(n.ops[0]) in swap][ci]
+        c2.ops = [swap[type(c2.ops[0])]()]
+        yield (f"swap-compare:{ast.unparse(c)[:40]}", "callables.py", _emit(t2), {"C01"}, "break")
+    # operand swap for non-commutative operators
+    bins = [n for n in ast.walk(tree) if isinstance(n, ast.BinOp) and isinstance(n.op, (ast.Mod, ast.Sub))]
+    for bi, b in enumerate(bins):
+        t2 = copy.deepcopy(tree)
+        b2 = [n for n in ast.walk(t2) if isinstance(n, ast.BinOp) and isinstance(n.op, (ast.Mod, ast.Sub))][bi]
+        b2.left, b2.right = b2.right, b2.left
+        under_abs = any(isinstance(n, ast.Call) and isinstance(n.func, ast.Name) and n.func.id == "abs" and n.args and ast.dump(n.args[0]) == ast.dump(b) for n in ast.walk(tree))
+        if isinstance(b.op, ast.Sub) and under_abs:
+            # abs(a - b) is symmetric: a neutral edit
+            yield (f"swap-operands-under-abs:{ast.unparse(b)[:30]}", "callables.py", _emit(t2), {"C01"}, "neutral")
+        else:
+            yield (f"swap-operands:{ast.unparse(b)[:30]}", "callables.py", _emit(t2), {"C01"}, "break")
+
+
+def gen_text_mutants(repo):
+    """Hand-picked single edits expressed on normalised statement text (looked up, not positional)."""
+    edits = [
+        ("schema.py", "return out", "return", {"C06"}, "bare-return-in-report", "ValidatedData.get_failures_string"),
+        ("schema.py", "self.rules = sorted(rules, key=lambda i: len(i.path))", "self.rules = sorted(rules, key=lambda i: len(i.path), reverse=True)", {"C06", "C18"}, "sort-reverse", None),
+        ("schema.py", "self.rules = sorted(self.rules, key=lambda i: len(i.path))", "self.rules = list(self.rules)", {"C06", "C18"}, "no-resort-after-add", None),
+        ("schema.py", "return all(i.is_valid for i in self.rule_tests)", "return all(i.is_valid for i in self.rule_tests[:1])", {"C06"}, "fold-over-prefix", None),
+        ("schema.py", "return sum(i.num_failures for i in self.rule_tests)", "return max(i.num_failures for i in self.rule_tests)", {"C06"}, "sum->max", None),
+        ("schema.py", "return ValidatedData(self, data)", "self.rule_tests = ValidatedData(self, data).rule_tests\n        return ValidatedData(self, data)", {"C08", "C13"}, "validate-stores-on-schema", None),
+        ("rules.py", "return RuleTest(self, data_copy)", "return RuleTest(self, data)", {"C05", "C15"}, "judge-original-not-copy", None),
+        ("rules.py", "if not f_item.result:", "if not f_item.result and len(failures) < 1:", {"C05"}, "record-only-first-failure", None),
+        ("rules.py", "path_exists = sub_data not in [None, []]", "path_exists = sub_data is not None", {"C05"}, "weaken-path-exists", None),
+        ("rules.py", "source_data=self.data,", "source_data=None,", {"C05", "C17"}, "drop-source-document", None),
+        ("conditions.py", "return isinstance(self, NullCondition)", "return self.callable.func is call_funcs.null if hasattr(self, 'callable') else False", {"C02"}, "null-by-callable", None),
+        ("conditions.py", "return ConditionOr(self, other)", "return ConditionXor(self, other)", {"C02"}, "or-builds-xor", None),
+        ("conditions.py", "data, operator.xor, data_has_paths=data_has_paths, source_data=source_data", "data, operator.or_, data_has_paths=data_has_paths, source_data=source_data", {"C02"}, "xor-filters-as-or", None),
+        ("conditions.py", "if spec_key in BINARY_OPS:", "if spec_key_split[0] in BINARY_OPS:", {"C09", "C19"}, "operator-branch-on-first-token", None),
+        ("conditions.py", "callable_error.append(callable_error_i)", "if callable_error_i:\n                callable_error.append(callable_error_i)", {"C01"}, "append-under-if", None),
+        ("conditions.py", "if data_has_paths:\n                datum, _ = datum", "if data_has_paths:\n                datum, _ = datum\n            if datum is None:\n                continue", {"C01"}, "continue-in-item-loop", None),
+        ("data.py", "False if i else (False if j else (False if k else True))", "False if i else (False if j else True)", {"C01"}, "result-ignores-callable-false", None),
+        ("data.py", "return [idx for idx, i in enumerate(self.result) if not i]", "return [idx for idx, i in enumerate(self.result) if i]", {"C01"}, "failure-indices-inverted", None),
+        ("data.py", "self.result = [binary_op(i, j) for i, j in zip(fd1.result, fd2.result)]", "self.result = [binary_op(i, j) for i, j in zip(fd1.result, fd1.result)]", {"C02"}, "combine-left-with-left", None),
+        ("datapath.py", "return None if self.is_concrete else []", "return [] if self.is_concrete else None", {"C03"}, "not-found-swapped", None),
+        ("datapath.py", "data = [len(i) for i in data]", "data = [len(i) for i in data if i]", {"C04"}, "datum-extraction-filters", None),
+        ("datapath.py", "data = data[-1]", "data = data[0]", {"C04"}, "last-returns-first", None),
+        ("datapath.py", "condition = self.list_condition & self.condition", "condition = self.list_condition | self.condition", {"C02"}, "part-conditions-or", None),
+        ("datapath.py", "spec = dict(spec)  # arguments are popped below; leave the caller's spec unchanged", "pass", {"C16"}, "part-parser-consumes-caller-spec", None),
+        ("datapath.py", "if not isinstance(spec, dict) or not spec:", "if not isinstance(spec, dict):", {"C19"}, "empty-mapping-not-rejected", None),
+        ("datapath.py", "and isinstance(part.condition, cnds.Key)", "and part.condition.is_key_like", {"C12"}, "simplify-guard-weakened", None),
+        ("datapath.py", "return DataPath(*self.parts, *other.parts)", "obj = copy.copy(self)\n            obj.parts = self.parts + other.parts\n            return obj", {"C18", "C04"}, "truediv-keeps-stale-state", None),
+        ("schema.py", "new_rule = Rule(", "rule.path = root_path / rule.path\n            new_rule = Rule(", {"C18"}, "add-schema-rebinds-added-rule", None),
+        ("schema.py", "items[path_i_str].get(\"required\", False)\n                        or key_cnd.callable.name == \"required_keys\"", "key_cnd.callable.name == \"required_keys\"", {"C20"}, "required-overwritten", None),
+        ("rules.py", "doc = copy.deepcopy(spec.get(\"doc\"))", "doc = spec.get(\"doc\")", {"C16"}, "doc-normalised-in-place", None),
+        ("rules.py", "set_datum(data_copy, datum_path, cast_datum)", "set_datum(data_copy, datum_path, datum)", {"C15"}, "write-back-uncast-value", None),
+        ("conditions.py", "elif isinstance(arg, dict):\n        return {k: resolve_data_path_arg(v, source_data) for k, v in arg.items()}", "", {"C17"}, "resolver-skips-mappings", None),
+        ("casting.py", "(str, int): int,", "(str, int): float,", {"C13"}, "cast-table-changed-neutral-for-roundtrip", "neutral"),
+        ("conditions.py", "pathlib.Path: \"path\",", "pathlib.Path: \"str\",", {"C11"}, "inverse-type-table-broken", None),
+    ]
+    for e in edits:
+        mod, old, new, props, label, extra = e
+        with open(os.path.join(repo, "valida", mod)) as fh:
+            src = fh.read()
+        lo, hi = 0, len(src)
+        if extra and extra != "neutral":
+            fn = _func(ast.parse(src), extra)
+            if fn is None:
+                yield (f"text:{label}", mod, None, props, "inapplicable")
+                continue
+            lines = src.splitlines(keepends=True)
+            lo = sum(len(l) for l in lines[: fn.lineno - 1])
+            hi = sum(len(l) for l in lines[: fn.end_lineno])
+        seg = src[lo:hi]
+        if old not in seg:
+            yield (f"text:{label}", mod, None, props, "inapplicable")
+            continue
+        kind = "neutral" if extra == "neutral" else "break"
+        yield (f"text:{label}", mod, src[:lo] + seg.replace(old, new, 1) + src[hi:], props, kind)
+
+
+def gen_neutral(repo):
+    for mod in sorted(os.listdir(os.path.join(repo, "valida"))):
+        if not mod.endswith(".py"):
+            continue
+        src, tree = _parse(repo, mod)
+        yield (f"neutral:unparse-reformat:{mod}", mod, _emit(tree), None, "neutral")
+    # rename locals in selected functions
+    for mod, qual, ren in (("conditions.py", "Condition._filter", {"processed_i": "proc", "result_i": "res"}),
+                           ("datapath.py", "DataPath.get_data", {"filtered_data": "fd", "part_idx": "pi"}),
+                           ("rules.py", "RuleTest._test", {"failure_item": "fi"}),
+                           ("schema.py", "write_tree_html", {"doc_para": "para", "chd_cnd": "cnd_txt"})):
+        src, tree = _parse(repo, mod)
+        f = _func(tree, qual)
+        if f is None:
+            continue
+
+        class R(ast.NodeTransformer):
+            def visit_Name(self, n):
+                if n.id in ren:
+                    n.id = ren[n.id]
+                return n
+        R().visit(f)
+        yield (f"neutral:rename-locals:{qual}", mod, _emit(tree), None, "neutral")
+    # reorder classes in handler tuples, commute == operands in __eq__
+    for mod in ("conditions.py", "rules.py"):
+        src, tree = _parse(repo, mod)
+        ch = False
+        for n in ast.walk(tree):
+            if isinstance(n, ast.ExceptHandler) and isinstance(n.type, ast.Tuple):
+                n.type.elts = list(reversed(n.type.elts))
+                ch = True
+        if ch:
+            yield (f"neutral:reorder-handler-tuple:{mod}", mod, _emit(tree), None, "neutral")
+    for mod in ("datapath.py", "rules.py", "schema.py"):
+        src, tree = _parse(repo, mod)
+        for q in [n for n in ast.walk(tree) if isinstance(n, ast.FunctionDef) and n.name == "__eq__"]:
+            for c in ast.walk(q):
+                if isinstance(c, ast.Compare) and len(c.ops) == 1 and isinstance(c.ops[0], ast.Eq):
+                    c.left, c.comparators = c.comparators[0], [c.left]
+        yield (f"neutral:commute-eq-operands:{mod}", mod, _emit(tree), None, "neutral")
+
+
+GENERATORS = [gen_handler_mutants, gen_copy_mutants, gen_escape_mutants, gen_tag_mutants, gen_eq_mutants, gen_callable_mutants, gen_text_mutants, gen_neutral]
+
+
+def all_variants(repo):
+    out = []
+    for g in GENERATORS:
+        try:
+            out.extend(g(repo))
+        except Exception as e:  # a generator that cannot apply is reported, never fatal
+            out.append((f"generator-error:{g.__name__}:{e}", "", None, None, "inapplicable"))
+    return out
+
+
+def _run_variant(args):
+    label, mod, new_src, pid, repo, scratch_root = args
+    d = tempfile.mkdtemp(prefix="v", dir=scratch_root)
+    try:
+        shutil.copytree(os.path.join(repo, "valida"), os.path.join(d, "valida"))
+        with open(os.path.join(d, "valida", mod), "w") as fh:
+            fh.write(new_src)
+        try:
+            compile(new_src, mod, "exec")
+        except SyntaxError:
+            return label, "does-not-compile", ""
+        env = dict(os.environ, VSTATIC_REPO=d, VSTATIC_EVIDENCE_DIR=os.path.join(d, "ev"), VSTATIC_SERIAL="1")
+        r = subprocess.run([PY, "-m", "vstatic", "check", pid, "--tier", "quick"], cwd=VERIF, env=env, capture_output=True, text=True)
+        first = next((l.strip() for l in r.stdout.splitlines() if l.startswith("  rule=")), "")
+        if r.returncode == 2:
+            first = next((l.strip() for l in r.stdout.splitlines() if "ANALYSIS-ERROR" in l), "")
+        return label, {0: "silent", 1: "fired", 2: "analysis-error"}.get(r.returncode, "?"), first[:200]
+    finally:
+        shutil.rmtree(d, ignore_errors=True)
 
 
 def main_thorough(pid, seed, repo=None):
-    return main_check(pid, "thorough", seed, repo)
+    repo = repo or REPO
+    t0 = time.time()
+    rc = main_check(pid, "thorough", seed, repo)
+    if rc != 0:
+        return rc
+    variants = all_variants(repo)
+    mine = []
+    for (label, mod, src, props, kind) in variants:
+        if kind == "inapplicable" or src is None:
+            continue
+        if kind == "neutral" or (props and pid in props):
+            mine.append((label, mod, src, kind))
+    rnd = random.Random(seed)
+    rnd.shuffle(mine)
+    scratch_root = tempfile.mkdtemp(prefix="vstatic_selftest_")
+    results = []
+    try:
+        with ThreadPoolExecutor(max_workers=min(16, os.cpu_count() or 4)) as ex:
+            for res in ex.map(_run_variant, [(l, m, s, pid, repo, scratch_root) for (l, m, s, k) in mine]):
+                results.append(res)
+    finally:
+        shutil.rmtree(scratch_root, ignore_errors=True)
+    kinds = {l: k for (l, m, s, k) in mine}
+    killed = [r for r in results if kinds[r[0]] == "break" and r[1] == "fired"]
+    survived = [r for r in results if kinds[r[0]] == "break" and r[1] != "fired"]
+    quiet = [r for r in results if kinds[r[0]] == "neutral" and r[1] == "silent"]
+    noisy = [r for r in results if kinds[r[0]] == "neutral" and r[1] != "silent"]
+    # extend the evidence file written by the quick part
+    from .report import EVIDENCE_DIR
+    path = os.path.join(EVIDENCE_DIR, f"{pid}.json")
+    with open(path) as fh:
+        ev = json.load(fh)
+    cov = ev["coverage"]
+    cov["self_validation"] = {
+        "variants_derived_from_current_tree": len(mine),
+        "breaking_variants": len(killed) + len(survived),
+        "killed": len(killed),
+        "survived": [{"variant": s[0], "outcome": s[1]} for s in survived],
+        "neutral_variants": len(quiet) + len(noisy),
+        "neutral_silent": len(quiet),
+        "neutral_alarms": [{"variant": s[0], "outcome": s[1], "first": s[2]} for s in noisy],
+        "kill_samples": [{"variant": k[0], "report": k[2]} for k in killed[:12]],
+    }
+    cov["programs"] = len(mine)
+    cov["disagreements_checked"] = len(survived) + len(noisy)
+    ev["wall_s"] = round(time.time() - t0, 3)
+    with open(path, "w") as fh:
+        json.dump(ev, fh, indent=1, default=str)
+    print(f"[{pid}] thorough self-validation: {len(killed)}/{len(killed) + len(survived)} breaking variants reported, "
+          f"{len(quiet)}/{len(quiet) + len(noisy)} neutral variants silent ({time.time() - t0:.1f}s)")
+    for s in survived:
+        print(f"  SURVIVED {s[0]} -> {s[1]}")
+    for s in noisy:
+        print(f"  NEUTRAL-ALARM {s[0]} -> {s[1]} {s[2]}")
+    return 0
